@@ -165,12 +165,19 @@ def cycle(spec, cfg, tmp, ncycles=4, origin=None, read_function=None, record=Fal
             else:
                 order = permuted(sec_main, cfg, cfg.get('pseed', 0))
             text = F[0][MAIN].decode('latin-1')
-            head, blocks, end = split_main(text, sec_main)
-            new = '\n'.join(head + sum((blocks[k] for k in order), []) + [end]) + '\n'
-            (dirs[0] / MAIN).write_bytes(new.encode('latin-1'))
-            F[0][MAIN] = new.encode('latin-1')
-            sec_main = order
-            info['permuted'] = order != info['sections']
+            try:
+                head, blocks, end = split_main(text, sec_main)
+            except RuntimeError:
+                # the written file does not hold the expected sections in the expected order: leave it as it is
+                # (what is wrong with it shows in the comparisons below)
+                info['unsplittable'] = True
+                order = None
+            if order is not None:
+                new = '\n'.join(head + sum((blocks[k] for k in order), []) + [end]) + '\n'
+                (dirs[0] / MAIN).write_bytes(new.encode('latin-1'))
+                F[0][MAIN] = new.encode('latin-1')
+                sec_main = order
+                info['permuted'] = order != info['sections']
         # expected section list of the object read back: keywords of the main file, then the ASCII mesh file's
         want_sections = list(sec_main) + (['ELEME', 'CONNE'] if cfg['mesh'] == 'ascii' else [])
         prev = A
